@@ -150,7 +150,7 @@ PROPERTIES = {
         ],
     },
     "C17": {
-        "modules": ["contracts.core_models", "contracts.c17_proofs", "contracts.c09_bounded", "contracts.c13_types", "contracts.c13_views"],
+        "modules": ["contracts.core_models", "contracts.c17_proofs", "contracts.c09_bounded", "contracts.c13_types", "contracts.c13_views", "contracts.c13_refspec", "contracts.c02_replace"],
         "level": "other",
         "explanation": "two layers. PROVED from the real source (number of members enumerated, member widths symbolic): Record._make_serializable assigns member i the slice [w_0+..+w_i-1 : w_0+..+w_{i-1}] (first member at bit 0, contiguous, total = sum) and recomputes the layout unless the class' OWN __dict__ holds one (an inherited layout is not reused); Record._get_reverse_elem_list yields the members in reverse DECLARATION order for every construction order of the instance. BOUNDED (labelled, never counted as proved): the real std.to_bits / from_bits / count_bits / Serialized / BitField are executed on every bit pattern of every type composition of a pool (Bit, bool, BitVector/Unsigned/Signed, Enum/FlagEnum incl. sparse, SFixed/UFixed, cohdl.Array, std.Array incl. nested and of records, records nested / inherited twice / empty-derived / templated with nested templated members, records holding arrays of records) up to 10 (quick) / 13 (thorough) bits and compared with a reference decoding written from the property statement: decode, round trip, width == count_bits, wrong widths rejected, keyword construction in every order, Serialized.from_raw/value/bits, BitField field reads and writes touching exactly the declared range.",
         "assumptions": COMMON_ASSUME + [
@@ -158,7 +158,7 @@ PROPERTIES = {
             "'identical in emitted logic' is not executed (no VHDL simulator): serialisation in a synthesizable context runs the same Python functions on signals; the emitted slices/concats rest on the slice-offset contracts of C02/C13",
             "BitField writes are observed through Variable-backed fields with .value (eager evaluation outside the compiler)",
         ],
-        "extra": ["contracts.c17_serial.serial_sweep"],
+        "extra": ["contracts.c17_serial.serial_sweep", "contracts.c17_extra.template_key_sweep"],
         "canaries": [
             {"name": "slice-off-by-one", "contract": "cohdl.std._record:_make_serializable", "case": "3-members", "file": "cohdl/std/_record.py",
              "old": "        slice_map[name] = slice(elem_start + width - 1, elem_start)", "new": "        slice_map[name] = slice(elem_start + width, elem_start)"},
@@ -176,7 +176,7 @@ PROPERTIES = {
             "float construction is checked for representable numbers only (the statement speaks of representable numbers); int(val / 2**exp) goes through an IEEE double, exact within the bound",
             "emitted logic for run-time operands is not executed (no VHDL simulator); it rests on the per-operator contracts of C02/C09",
         ],
-        "extra": ["contracts.c19_fixed.fixed_sweep"],
+        "extra": ["contracts.c19_fixed.fixed_sweep", "contracts.c17_extra.template_key_sweep"],
         "canaries": [
             {"name": "add-growth-bit", "contract": "cohdl.std._fixed:SFixed.__add__", "case": "a-finer,a-higher", "file": "cohdl/std/_fixed.py",
              "old": "        target_left = max(self.left(), other.left()) + 1\n        target_width = target_left - target_right + 1\n\n        lhs_zeros = self.right() - target_right\n        rhs_zeros = other.right() - target_right\n\n        return SFixed[target_left:target_right](\n            raw=self._val.resize(target_width, zeros=lhs_zeros)\n            + other._val.resize(target_width, zeros=rhs_zeros)",
